@@ -32,6 +32,7 @@ ASSUMPTIONS = [
 SHARDS = {"quick": 8, "thorough": 16}
 MIN_REACH = {
     "histories_under_xarrays_new_combine_defaults": {"quick": 20, "thorough": 300},
+    "histories_whose_file_is_named_by_a_path_object": {"quick": 15, "thorough": 250},
     "states_judged": {"quick": 500, "thorough": 9000},
     "conflicts_refused": {"quick": 25, "thorough": 500},
     "new_sessions": {"quick": 80, "thorough": 1500},
@@ -218,6 +219,11 @@ def _run_case(ctx, case):
     engine = case["engine"]
     tmp = ctx.mkdtemp("hv")
     data_name = None if case["mem_only"] else os.path.join(tmp, case["name"])
+    if data_name is not None and (len(case["steps"]) + len(case["name"])) % 4 == 1:
+        # the harvester's file is named by a pathlib.Path (Path(project) / "hv"), in every session of the history
+        import pathlib
+        data_name = pathlib.Path(data_name)
+        ctx.count("histories_whose_file_is_named_by_a_path_object")
     var_names = ["y", "z"] if kind.startswith("multi") else "y"
     var_dims = {"z": "t"} if kind.startswith("multi") else None
     var_coords = {"t": T_VALS} if kind.startswith("multi") else None
